@@ -57,11 +57,14 @@ def build_poly(lit: dict) -> Any:
             flat = [complex(re, im) for re, im in flat]
         coeffs.append(numpy.array(flat, dtype=dtype).reshape(shape))
     exps = numpy.array(lit["exponents"], dtype=int).reshape(len(coeffs), len(lit["names"]))
+    fortran = lit.get("layout") == "F" and len(shape) >= 2
     try:
         poly = numpoly.polynomial_from_attributes(
-            exponents=exps, coefficients=coeffs, names=tuple(lit["names"]), dtype=dtype,
+            exponents=exps, coefficients=[c.T.copy() for c in coeffs] if fortran else coeffs, names=tuple(lit["names"]), dtype=dtype,
             retain_coefficients=bool(lit.get("retain", True)), retain_names=bool(lit.get("retain", True)),
         )
+        if fortran:
+            poly = poly.T  # same polynomial array, Fortran-ordered (non C-contiguous) memory
         want = lit_canon(lit)
         have = canon(poly)
         ok = poly.shape == shape and poly.dtype == dtype and canon_equal(want, have, exact=True)
@@ -341,6 +344,7 @@ def gen_poly(
     lit = {
         "names": list(names),
         "shape": list(shape),
+        **({"layout": "F"} if len(shape) >= 2 and ch.chance(0.12) else {}),
         "dtype": dtype,
         "exponents": [list(e) for e in exps],
         "coefficients": [_jsonable(col, kind) for col in coefficients],
@@ -385,6 +389,8 @@ def lit_shrinks(lit: dict):
     """Simpler variants of a polynomial literal (for the minimiser)."""
     nterms = len(lit["exponents"])
     size = int(numpy.prod(lit["shape"], dtype=int))
+    if lit.get("layout"):
+        yield {k: v for k, v in lit.items() if k != "layout"}
     # drop a term
     if nterms > 1:
         for i in range(nterms):
